@@ -108,6 +108,43 @@ Router::~Router()
 {
     m_currently_calling_destructors = true;
 
+    // Objects that were created but whose addition was never processed are
+    // only referenced from the queue of pending actions: they are not yet
+    // in connRefs or m_obstacles.  Free them too, connectors first.
+    ActionInfoList pendingActions;
+    pendingActions.swap(actionList);
+    std::set<void *> freedPending;
+    for (int pass = 0; pass < 2; ++pass)
+    {
+        for (ActionInfoList::iterator curr = pendingActions.begin();
+                curr != pendingActions.end(); ++curr)
+        {
+            if ((pass == 0) && (curr->type == ConnChange))
+            {
+                ConnRef *pendingConn = curr->conn();
+                if ((freedPending.count(pendingConn) == 0) &&
+                        (std::find(connRefs.begin(), connRefs.end(),
+                                pendingConn) == connRefs.end()))
+                {
+                    freedPending.insert(pendingConn);
+                    delete pendingConn;
+                }
+            }
+            else if ((pass == 1) && ((curr->type == ShapeAdd) ||
+                        (curr->type == JunctionAdd)))
+            {
+                Obstacle *pendingObstacle = curr->obstacle();
+                if ((freedPending.count(pendingObstacle) == 0) &&
+                        (std::find(m_obstacles.begin(), m_obstacles.end(),
+                                pendingObstacle) == m_obstacles.end()))
+                {
+                    freedPending.insert(pendingObstacle);
+                    delete pendingObstacle;
+                }
+            }
+        }
+    }
+
     // Delete remaining connectors.
     ConnRefList::iterator conn = connRefs.begin();
     while (conn != connRefs.end())
